@@ -16,4 +16,5 @@ typedef struct Pt Pt;
 double norm(const Pt *p);
 void clamp(double v, double lo, double hi);
 int *peek(int *n);
+int *counterPtr(void);
 #endif
